@@ -307,10 +307,15 @@ class RestAPI(object):
             try:
                 params = json.loads(data.decode("utf8"))
             except ValueError as e:
-                params = ""
+                params = {}
                 self.logger.error(
                     "Message body {} does not contain valid JSON".format(data)
                 )
+
+            # The actions take their arguments from a JSON object, anything
+            # else (a JSON array, string, number...) carries no arguments.
+            if not isinstance(params, dict):
+                params = {}
 
             # ------------------------------------------------------------------
 
@@ -353,7 +358,7 @@ class RestAPI(object):
 
                 # Get State Machine type (STANDARD or EXPRESS) if supplied
                 type = params.get("type", "STANDARD")
-                if type not in {"STANDARD", "EXPRESS"}:
+                if type not in ("STANDARD", "EXPRESS"):
                     self.logger.error(
                         "RestAPI CreateStateMachine: State Machine type {} "
                         "is not supported".format(type)
@@ -381,7 +386,8 @@ class RestAPI(object):
                 character limit described in the CreateStateMachine API page.
                 https://docs.aws.amazon.com/step-functions/latest/apireference/API_CreateStateMachine.html
                 """
-                if len(definition) == 0 or len(definition) > MAX_STATE_MACHINE_LENGTH:
+                if (not isinstance(definition, str) or
+                    len(definition) == 0 or len(definition) > MAX_STATE_MACHINE_LENGTH):
                     self.logger.error(
                         "RestAPI CreateStateMachine: Invalid definition size for State Machine '{}'.".format(name)
                     )
@@ -431,6 +437,12 @@ class RestAPI(object):
                 https://docs.aws.amazon.com/AmazonCloudWatch/latest/logs/iam-access-control-overview-cwl.html
                 """
                 logging_configuration = params.get("loggingConfiguration", {})
+                if not isinstance(logging_configuration, dict):
+                    self.logger.error(
+                        "RestAPI CreateStateMachine: Invalid logging configuration for State Machine '{}'.".format(name)
+                    )
+                    return aws_error("InvalidLoggingConfiguration"), 400
+
                 # Explicitly set default to OFF if not present in request.
                 logging_level = logging_configuration.get("level", "OFF")
                 logging_configuration["level"] = logging_level
@@ -669,7 +681,8 @@ class RestAPI(object):
                     character limit described in the UpdateStateMachine API page.
                     https://docs.aws.amazon.com/step-functions/latest/apireference/API_UpdateStateMachine.html
                     """
-                    if len(definition) == 0 or len(definition) > MAX_STATE_MACHINE_LENGTH:
+                    if (not isinstance(definition, str) or
+                        len(definition) == 0 or len(definition) > MAX_STATE_MACHINE_LENGTH):
                         self.logger.error(
                             "RestAPI UpdateStateMachine: Invalid definition size for State Machine '{}'.".format(name)
                         )
@@ -725,6 +738,12 @@ class RestAPI(object):
                 """
                 logging_configuration = params.get("loggingConfiguration", {})
                 if logging_configuration:
+                    if not isinstance(logging_configuration, dict):
+                        self.logger.error(
+                            "RestAPI UpdateStateMachine: Invalid logging configuration for State Machine '{}'.".format(state_machine_arn)
+                        )
+                        return aws_error("InvalidLoggingConfiguration"), 400
+
                     # Explicitly set default to OFF if not present in request.
                     logging_level = logging_configuration.get("level", "OFF")
                     logging_configuration["level"] = logging_level
@@ -837,7 +856,7 @@ class RestAPI(object):
                 quota described in Stepfunction Quotas page.
                 https://docs.aws.amazon.com/step-functions/latest/dg/limits.html
                 """
-                if len(input) > MAX_DATA_LENGTH:
+                if not isinstance(input, str) or len(input) > MAX_DATA_LENGTH:
                     self.logger.error(
                         "RestAPI StartExecution: input size for execution '{}' exceeds "
                         "the maximum number of characters service limit.".format(name)
@@ -972,7 +991,8 @@ class RestAPI(object):
                 quota described in Stepfunction Quotas page.
                 https://docs.aws.amazon.com/step-functions/latest/dg/limits.html
                 """
-                if len(input_as_string) > MAX_DATA_LENGTH:
+                if (not isinstance(input_as_string, str) or
+                    len(input_as_string) > MAX_DATA_LENGTH):
                     self.logger.error(
                         "RestAPI StartSyncExecution: input size for execution "
                         "'{}' exceeds the maximum number of characters "
@@ -1163,13 +1183,13 @@ class RestAPI(object):
                     return aws_error("StateMachineDoesNotExist"), 400
 
                 status_filter = params.get("statusFilter")
-                if status_filter and status_filter not in {
+                if status_filter and status_filter not in (
                     "RUNNING",
                     "SUCCEEDED",
                     "FAILED",
                     "TIMED_OUT",
                     "ABORTED",
-                }:
+                ):
                     status_filter = None
 
                 """
